@@ -92,3 +92,33 @@ func VerifC16_independent() {
 		vfAssert(len(styles) >= 10, "registry-read-concurrently")
 	}
 }
+
+// VerifC16_listers: several goroutines list the styles (read the registry) while another renders a
+// text table by decoration name; nobody writes shared state, whatever was listed before.
+func VerifC16_listers() {
+	var l1, l2 []string
+	var out string
+	var failed bool
+	warm := vfChoice("warm", 2) == 1
+	if warm {
+		ListStyles() // a listing before the goroutines start
+	}
+	bodies := []func(){
+		func() { l1 = ListStyles() },
+		func() { l2 = ListStyles() },
+		func() { out, failed = vfScenario(4, "x") },
+	}
+	nb := 2 + vfChoice("third", 2)
+	vfPar(bodies[:nb]...)
+	vfAssert(len(l1) == len(l2), "concurrent-listings-agree")
+	if len(l1) == len(l2) {
+		for i := range l1 {
+			vfAssert(l1[i] == l2[i], "concurrent-listings-agree")
+		}
+	}
+	vfAssert(len(l1) >= 10, "registry-read-concurrently")
+	if nb == 3 {
+		w, wf := vfScenario(4, "x")
+		vfAssert(vfAnd(out == w, failed == wf), "output-equals-solo-output")
+	}
+}
